@@ -58,7 +58,7 @@ def masks(tier, r, i):
 
 
 def make_cases(tier, seed):
-    n = 600 if tier == 'quick' else 10000
+    n = 1500 if tier == 'quick' else 12000
     cases, meta = [], []
     for i in range(n):
         r = gen.seeded(seed, 'C04', i)
